@@ -254,6 +254,24 @@ CHECKS.update({
         engine="exprs"),
 })
 
+CHECKS.update({
+    "C12": dict(
+        category="model_checking",
+        text="TypeSwitch.tla models Go type-switch dispatch over a universe of concrete types (value and pointer receivers), three "
+             "interfaces and nil, and caseOrder's claim that a case can never be reached; ClaimTrue holds for the sound implements "
+             "test and is refuted for the what-ifs 'untyped nil implements the empty interface' (the pinned defect, fixed) and "
+             "'pointer-receiver methods count for the value type'. All 392 case lists are rendered, analysed by the real checker and "
+             "executed on every dynamic value: the model's dispatch must equal the Go runtime's (else undecided) and a flagged case "
+             "must never be taken. The other constant-outcome claims (sloppyLen always true/false, badCond always false, offBy1 always "
+             "panics, nilValReturn always nil, dupSubExpr/dupArg same value) are checked by 39 executable templates with pure, impure, "
+             "NaN, shadowed and lazily-initialised operands: the claim parsed from the real diagnostic must hold in every execution.",
+        design_ref="DESIGN.md section 6 C12",
+        note="Universe bounded (4 concrete types, 3 interfaces, nil; <= 3 cases); value-switch claims of dupBranchBody/dupCase are "
+             "covered only through the templates.",
+        technique="exhaustive TLC enumeration of type-switch case lists replayed by execution + executable claim templates",
+        engine="typeswitch"),
+})
+
 NOT_YET = "check not built yet (construction in progress; see DESIGN.md section 6)"
 NOT_APPLICABLE = {}
 
